@@ -1,13 +1,15 @@
 (* Composite_check.v — correspondence between Model/Composite.v and the real
    composite controller: the model is run against the answers the
    implementation received; calls are compared per target. *)
-From MC Require Export Model.Verdict Model.Composite Model.TracePreds Model.Safe.
+From MC Require Export Model.Verdict Model.Composite Model.TracePreds Model.Safe Model.Rolling.
 Local Open Scope list_scope.
 
 Record round := mkRound { r_cache : cache; r_events : list ev; r_result : sync_result;
                           r_queue : list (string * string * Z);   (* op, key, delay in ms *)
                           r_key : string }.
-Record ccase := mkCase { c_cfg : ccfg; c_rounds : list round }.
+Record ccase := mkCase { c_cfg : ccfg; c_rounds : list round;
+                         c_final : list json;        (* the store after the last round *)
+                         c_flags : list string }.    (* scenario features *)
 
 (* identity of a call target *)
 Definition call_key (c : call) : string :=
@@ -48,12 +50,28 @@ Definition count_key (key : string) (hist : list (call * answer)) : nat :=
 
 Definition is_note (c : call) : bool := match c with CHook HCustomize _ => true | _ => false end.
 
+(* hook calls of one sync run in parallel (one per live revision): answers are matched by request content *)
+Fixpoint nth_answer_eq (c : call) (n : nat) (log : list ev) : option answer :=
+  match log with
+  | [] => None
+  | e :: log' =>
+      if call_eqb (e_call e) c
+      then match n with O => Some (e_ans e) | S n' => nth_answer_eq c n' log' end
+      else nth_answer_eq c n log'
+  end.
+
 Definition env_of_log (log : list ev) : env :=
   fun hist c =>
     if is_note c then AHookErr else
+    match c with
+    | CHook _ _ =>
+        match nth_answer_eq c (List.length (filter (fun p => call_eqb (fst p) c) hist)) log with
+        | Some a => a | None => AHookErr end
+    | _ =>
     match nth_answer (call_key c) (count_key (call_key c) hist) log with
     | Some a => a
     | None => AFail EOther
+    end
     end.
 
 Definition sync_result_eqb (a b : sync_result) : bool :=
@@ -74,15 +92,31 @@ Fixpoint calls_eqb (a b : list call) : bool :=
   | _, _ => false
   end.
 
+(* parallel hook calls: compared as multisets *)
+Fixpoint remove_call (c : call) (l : list call) : option (list call) :=
+  match l with
+  | [] => None
+  | x :: l' => if call_eqb c x then Some l'
+               else match remove_call c l' with Some r => Some (x :: r) | None => None end
+  end.
+Fixpoint calls_perm_eqb (a b : list call) : bool :=
+  match a with
+  | [] => match b with [] => true | _ => false end
+  | x :: a' => match remove_call x b with Some b' => calls_perm_eqb a' b' | None => false end
+  end.
+Definition is_hook_call (c : call) : bool := match c with CHook _ _ => true | _ => false end.
+
 Definition round_diverges (proj : ccfg -> json -> call -> bool) (with_result : bool) (c : ccfg) (r : round) : option string :=
-  let p := sync c (r_cache r) in
+  let p := sync_r c (r_cache r) in
   let '(hist, res) := run p (env_of_log (r_events r)) [] in
   let parent := match k_parent (r_cache r) with Some p => p | None => JNull end in
   let mcalls := filter (proj c parent) (filter (fun c => negb (is_note c)) (map fst (rev hist))) in
   let icalls := filter (proj c parent) (map e_call (r_events r)) in
   if with_result && negb (sync_result_eqb res (r_result r)) then Some "result" else
   if negb (Nat.eqb (List.length mcalls) (List.length icalls)) then Some "call-count" else
-  if forallb (fun c => calls_eqb (calls_for (call_key c) mcalls) (calls_for (call_key c) icalls)) icalls
+  if forallb (fun c => if is_hook_call c
+                       then calls_perm_eqb (calls_for (call_key c) mcalls) (calls_for (call_key c) icalls)
+                       else calls_eqb (calls_for (call_key c) mcalls) (calls_for (call_key c) icalls)) icalls
   then None else Some "call-content".
 
 Fixpoint first_divergence proj wr (c : ccfg) (rs : list round) (i : nat) : option string :=
@@ -237,3 +271,68 @@ Definition C12_check := check_with (fun c r =>
                  (if child_write_seen c (r_events r) &&
                      negb (match k_parent (r_cache r) with Some p => status_phase_seen c p (r_events r) | None => true end)
                   then Some "status-not-attempted-after-child-failure" else None))) proj_all true.
+
+(* ---------- C08: healthy rollouts finish and clean up; never wait on a healthy child ---------- *)
+Definition status_write_cond (c : ccfg) (parent : json) (evs : list ev) : option json :=
+  match rev (filter (fun e => match is_api e with
+                              | Some q => targets_parent c parent q && verb_eqb (q_verb q) VUpdateStatus
+                              | None => false end) evs) with
+  | e :: _ => match is_api e with
+              | Some q => status_condition (q_body q) "Updated"
+              | None => None end
+  | [] => None
+  end.
+
+Definition str_prefix (p s : string) : bool := String.prefix p s.
+
+(* the message of a RolloutWaiting condition names a child; it must really be absent / stale / unhealthy *)
+Definition C08_no_wait_on_healthy (c : ccfg) (r : round) : option string :=
+  match k_parent (r_cache r) with
+  | None => None
+  | Some parent =>
+      match status_write_cond c parent (r_events r), round_desired c (r_events r) with
+      | Some cond, Some (sent, ds) =>
+          if negb (String.eqb (cond_field cond "reason") "RolloutWaiting") then None else
+          let msg := cond_field cond "message" in
+          let observed := observed_of c r sent in
+          first_some (fun g => match g with (av, kd, os) =>
+            first_some (fun p =>
+              let o := snd p in
+              let name := relative_name (get_ns sent) o in
+              if str_prefix ("missing child " ++ kd ++ " " ++ name)%string msg &&
+                 String.eqb msg ("missing child " ++ kd ++ " " ++ name)%string
+              then Some "rollout-waits-on-child-that-exists" else None) os end) observed
+      | _, _ => None
+      end
+  end.
+
+Definition owned_by (puid : string) (o : json) : bool := controlled_by o puid.
+
+Definition C08_final (c : ccase) : option string :=
+  if negb (mem_str "fair" (c_flags c)) then None else
+  let cfg := c_cfg c in
+  match find (fun o => String.eqb (get_kind o) (p_kind cfg)) (c_final c) with
+  | None => None
+  | Some parent =>
+      let puid := get_uid parent in
+      if is_deleting parent then None else
+      let revs := filter (fun o => String.eqb (get_kind o) "ControllerRevision" && owned_by puid o) (c_final c) in
+      let image := jget "image" (obj_map (jget "spec" (obj_map parent))) in
+      let stale := filter (fun o => owned_by puid o && negb (String.eqb (get_kind o) "ControllerRevision") &&
+                                    is_rolling cfg (group_of (get_api_version o)) (get_kind o) &&
+                                    negb (jeqb (jget "image" (obj_map (jget "spec" (obj_map o)))) image)) (c_final c) in
+      if negb (Nat.eqb (List.length stale) 0) then Some "children-not-all-at-latest-after-fair-rollout" else
+      if negb (Nat.eqb (List.length revs) 1) then Some "old-revisions-not-cleaned-up" else
+      match status_condition parent "Updated" with
+      | Some cond => if String.eqb (cond_field cond "status") "True" then None else Some "updated-condition-not-true-after-fair-rollout"
+      | None => Some "updated-condition-missing"
+      end
+  end.
+
+Definition C08_check (c : ccase) : verdict :=
+  match C08_final c with
+  | Some w => PROPFAIL w
+  | None => check_with (fun cfg r => C08_no_wait_on_healthy cfg r) proj_all true c
+  end.
+
+Definition C07_check := check_with (fun c r => C08_no_wait_on_healthy c r) proj_all true.
